@@ -85,8 +85,17 @@ def fill(claim, na):
           "recent, slot yields the latest once, closed sinks ignore writes).",
           "Trusted: MIR interpreter + models of VecDeque/Mutex/Arc/AtomicBool (sequential). Counterexamples are replayed through the public "
           "sink API. Not decided: end-to-end order from a model's output to the sink (coroutine), concurrent writers.", "DESIGN.md §5 C17")
+    claim("C06", "E2 mirse", E2_TECH,
+          "Reduced scope: (a) Simulation::run maps UnprocessedMessages(n) to Deadlock listing exactly the observed models with a non-empty "
+          "mailbox (registration order, exact sizes) or to MessageLoss(n) when all are empty, for 0..4 observers with symbolic lengths; "
+          "(b) SimInit::add_model / simulation::add_model / BuildContext::add_submodel register an observer under the fully qualified name "
+          "(parent.child, '<unknown>' for empty names) for EVERY model of every hierarchy up to the bound, watching that model's own mailbox.",
+          "Trusted: MIR interpreter; ProtoModel::build is a script adding the sub-models of the enumerated tree; Receiver/Sender are tokens. "
+          "Counterexamples are replayed on a native hierarchical bench in which each model dead-locks on a query loop-back (1 and 3 threads). "
+          "NOT decided: the in-flight message counter (THREAD_MSG_COUNT, folding when workers park) and therefore 'never a false report on "
+          "any schedule or thread count'.", "DESIGN.md §5 C06")
     pending = "check not built yet in this round (planned, see DESIGN.md §5); not claimed until it runs"
-    for p in ["C02", "C03", "C06", "C12", "C14", "C15"]:
+    for p in ["C02", "C03", "C12", "C14", "C15"]:
         na(p, pending)
     na("C04", "The property is about the multi-threaded executor's idle/park hand-off on real threads (st3, parking); Kani has no "
               "threads and the MIR engine has no model of blocking primitives; the single-threaded remainder would not justify the claim.")
